@@ -674,6 +674,20 @@ func genCandidates(vars []lvar, terms []term) []cand {
 			for _, k := range []int64{4, 5} {
 				k := k
 				if vars[i].lenVar || vars[j].lenVar {
+					// a slice cursor consumed k bytes per step of a counter: len(cursor) + k*i is constant
+					if k == 4 && (vars[i].lenVar != vars[j].lenVar) {
+						a, b := i, j // a: the length, b: the counter
+						if vars[j].lenVar {
+							a, b = j, i
+						}
+						add(fmt.Sprintf("%s+%d*%s == init", vars[a].name, k, vars[b].name), func(d *disjunct, cur, init func(int) *lin.Lin) ([]lin.Ineq, bool) {
+							ca, cb, ia, ib := cur(a), cur(b), init(a), init(b)
+							if ca == nil || cb == nil || ia == nil || ib == nil {
+								return nil, false
+							}
+							return lin.EQ(ca.Add(cb.Scale(k)), ia.Add(ib.Scale(k))), true
+						})
+					}
 					continue
 				}
 				for _, swap := range []bool{false, true} {
